@@ -298,6 +298,10 @@ def gen_content():
         yield Case(line(["fs.1.90", "fs.2.91", "spull.1.n1.n1" + proto, "psuccm.1.0", "sdp.1", "sdp.2", "ap.2.1", "sdp.2", "sdp.1", "pdone.1.0", "sdp.1", "psuccm.1.0", "sdp.1",
                          "xpull.1", "sdp.1", "gone.1", "sdp.2", "tick.1", "sdp.3"]), cls="content-accepted")
         yield Case(line(["fs.1.90", "psuccm.1.0", "sdp.1", "rp.1.1", "pdone.1.0", "sdp.1", "psuccm.1.0", "gone.1", "tick.1", "psuccm.1.0", "sdp.1", "gone.90", "tick.2", "tick.3", "sdp.1"], "static=1"), cls="content-accepted")
+    # ServerManager.Dispose drops every group's SDP (delIn) but leaves an attached relay pull in its slot; inputs that arrive afterwards
+    for proto in ("", ".rtsp"):
+        yield Case(line(["fs.1.90", "spull.1.n1.n1" + proto, "psuccm.1.0", "sdp.1", "spull.2.n1.n1.rtsp", "ap.2.1", "sdp.2", "dispose", "sdp.1", "sdp.2", "psucc.2.0", "sdp.2",
+                         "ap.2.2", "sdp.2", "pdone.1.0", "sdp.1", "ap.1.3", "sdp.1", "gone.3", "sdp.1", "gone.1", "gone.2", "sdp.2"]), cls="content-dispose")
     yield Case(line(["ap.1.1", "sdp.1", "ap.1.2", "sdp.1", "kick.1.c1", "sdp.1", "gone.2", "sdp.1", "gone.1", "sdp.1", "ap.1.3", "sdp.1", "dispose", "sdp.1"]), cls="content-accepted")
     yield Case(line(["fs.1.90", "fs.1.91", "spull.1.n1.n1", "psuccm.1.0", "gone.90", "pdone.1.0", "rp.1.1", "psuccm.1.0", "media.1", "gone.1", "psuccm.1.0", "tick.1"]), cls="content-accepted")
 
@@ -459,6 +463,7 @@ def oracle(c, out):
     must_finish = set()
     prev = {}
     last_media = {}  # name -> (result, subscriber set at that time, dirty)
+    sdp_dropped = {}  # stream -> the RTSP input that occupied it when ServerManager.Dispose dropped every group's SDP
     conn_of = {}     # rtsp session name -> its command connection (named after the first session on it)
     members = {}     # connection -> session names created on it
     for idx, (op, (res, groups, notes)) in enumerate(zip(ops, steps)):
@@ -474,6 +479,11 @@ def oracle(c, out):
             f = [o, f[1], f[3]] + f[4:]
         for n in notes:
             words.setdefault(n[1], []).append(n[0])
+        if o == "dispose" and res == "-":
+            for s, g in groups.items():
+                w = g["slots"][1] if g["slots"][1] != "-" else g["slots"][5]
+                if w != "-":
+                    sdp_dropped[s] = w
         # (a) at most one accepted input per stream at every instant
         for s, g in groups.items():
             if len(occupants(g)) > 1:
@@ -553,14 +563,22 @@ def oracle(c, out):
                 else:
                     must_finish.add(subject)
         elif o == "sdp":
-            # the SDP a group holds (and answers DESCRIBE with) is that of its accepted RTSP input, if any
+            # What the group of a stream holds as SDP (and answers an RTSP DESCRIBE with) is content of its ACCEPTED input:
+            #  (1) if it holds one at all, it is that of the RTSP publisher / RTSP relay pull that occupies the stream in this
+            #      very view - never that of a refused or departed input or of any other session, never any when the
+            #      input is of another kind or absent;
+            #  (2) an accepted RTSP input's SDP is there - except after ServerManager.Dispose: Group.Dispose ends with delIn,
+            #      which drops the SDP together with the pipeline, while it leaves an attached relay pull in its slot;
+            #      for the input that sat there when the server was disposed "none" is what a torn-down group holds.
             g = groups.get("s" + f[1])
             want = "-"
             if g:
                 want = g["slots"][1] if g["slots"][1] != "-" else g["slots"][5]
-            if res != want:
+            if res != "-" and res != want:
                 whose = "a refused input" if (res in must_finish or not accepted.get(res, True)) else ("a departed input" if res in gone or res in finished_atts else "another session")
                 return (False, where + "the group of s%s holds the SDP of %s (%s); its accepted RTSP input is %s" % (f[1], res, whose, want if want != "-" else "none"))
+            if res == "-" and want != "-" and sdp_dropped.get("s" + f[1]) != want:
+                return (False, where + "the group of s%s holds no SDP although %s is its accepted RTSP input (and the server was not disposed since it was accepted)" % (f[1], want))
         elif o == "spull":
             if res.startswith("0:"):
                 before = prev.get("s" + f[1])
